@@ -188,6 +188,23 @@ func c04Specs(quick bool) []*SeqSpec {
 		ramps = []int{7, 8, 9, 127, 128, 129, 130}
 	}
 	specs := []*SeqSpec{{Name: "queue-order", Cfg: cfg, Alphabet: c04Alphabet(quick), Depth: d, MaxStates: 600000, Drain: true}}
+	// requests that only wait for the key to become free (expiry 0: answered SUCCED without a hold, as the
+	// client's Event.Wait sends them): the wake-up pass must go on past them
+	zd := 6
+	if !quick {
+		zd = 7
+	}
+	specs = append(specs, &SeqSpec{Name: "zero-expiry-waiters", Cfg: cfg, Depth: zd, Drain: true, Alphabet: []SeqOp{
+		op(0, L(0, 1, 1, 0, 4, 0, 0)),
+		op(1, L(0, 1, 10, 6, 0, 0, 0)),
+		op(1, L(0, 1, 11, 6, 0, 0, 0)),
+		op(1, L(0, 1, 12, 6, 0, 1, 0)),
+		op(1, L(0, 1, 13, 6, 4, 0, 0)),
+		op(1, withTF(L(0, 1, 14, 6, 0, 0, 3), 0x10)),
+		op(0, U(0, 1, 1)),
+		op(0, U(0, 1, 13)),
+		tick(2 * sec),
+	}})
 	for _, n := range ramps {
 		specs = append(specs, &SeqSpec{Name: fmt.Sprintf("ramp-%d-waiters", n), Cfg: cfg, Ramp: rampWaiters(n, false), Alphabet: rampWaitAlphabet(n), Depth: rd, Drain: true, DrainFor: 70 * sec})
 		specs = append(specs, &SeqSpec{Name: fmt.Sprintf("ramp-%d-waiters-prio", n), Cfg: cfg, Ramp: rampWaiters(n, true), Alphabet: rampWaitAlphabet(n), Depth: rd, Drain: true, DrainFor: 70 * sec})
